@@ -8,6 +8,8 @@ result keys (each an outcome, see `outcome`):
    twice  = apply_acl(plain, A)                       (only when plain is a tree)
    b, ab  = apply_acl(t, B), apply_acl(t, A + "\n" + B)   (lenient, only with acl_b)
    fcfg   = filter_config(make_acl(A, vendor), CommonFormatter, join(t)) re-parsed (optional)
+A case with a "diff" key ([[op, row, children], ...], op in added/removed/affected/moved/unchanged) is run through
+patching.apply_acl_diff instead: {"ok": diff} | {"compile": ...}.
 An outcome is {"ok": tree} | {"uncovered": [row path]} | {"notexcl": [row path], "gens": [...]}
 | {"compile": "NotImplementedError"} | {"exc": "..."}.
 """
@@ -61,7 +63,27 @@ def outcome(fn, tree):
         return {"exc": type(e).__name__ + ":" + str(e)[:300]}
 
 
+def diff_in(d):
+    return [(op, row, diff_in(kids), None) for op, row, kids in d]
+
+
+def diff_out(d):
+    return [[op, row, diff_out(kids)] for (op, row, kids, _m) in d]
+
+
+def one_diff(case):
+    try:
+        rules = compile_acl(case["acl"], case["vendor"])
+        return {"ok": diff_out(patching.apply_acl_diff(diff_in(case["diff"]), rules))}
+    except NotImplementedError:
+        return {"compile": "NotImplementedError"}
+    except Exception as e:  # noqa
+        return {"exc": type(e).__name__ + ":" + str(e)[:300]}
+
+
 def one(case):
+    if "diff" in case:
+        return one_diff(case)
     v = case["vendor"]
     t = to_odict(case["tree"])
     a = case["acl"]
